@@ -51,24 +51,69 @@ func (c *Ctx) nniProposals(rr, nn *FuncInfo) {
 		c.Violation("GF", "tree.NNIRearranger.Rearrange/two-variants", rr.Decl.Pos(), fmt.Sprintf("%d calls of newNNI per branch, expected exactly 2", len(calls))).Clause = clause
 		return
 	}
-	// loop over t.Edges()
-	var rs *ast.RangeStmt
-	for _, s := range stackTo(rr.Decl.Body, calls[0]) {
-		if r, ok := s.(*ast.RangeStmt); ok {
-			rs = r
+	// the branch variable: root identifier of the nodes handed to newNNI; it must come from t.Edges()
+	// (range value, or element of a local holding t.Edges())
+	var eObj types.Object
+	if len(calls[0].Args) == 4 {
+		e := unparen(calls[0].Args[1])
+		for {
+			switch x := e.(type) {
+			case *ast.CallExpr:
+				if sel, ok := unparen(x.Fun).(*ast.SelectorExpr); ok {
+					e = unparen(sel.X)
+					continue
+				}
+			case *ast.SelectorExpr:
+				e = unparen(x.X)
+				continue
+			}
+			break
 		}
+		eObj = identObj(info, e)
 	}
-	if rs == nil || rs.Value == nil {
-		c.Undecided("GF", "tree.NNIRearranger.Rearrange/two-variants", rr.Decl.Pos(), "proposals are not made inside a range over the branches")
+	if eObj == nil {
+		c.Undecided("GF", "tree.NNIRearranger.Rearrange/two-variants", rr.Decl.Pos(), "the branch the rearrangements are built on is not a variable")
 		return
 	}
-	eObj := identObj(info, rs.Value)
-	o := &canonOpts{subst: map[types.Object]string{eObj: "$E"}}
-	okEdges := false
-	if cl, ok := unparen(rs.X).(*ast.CallExpr); ok && isRepoFunc(calleeOf(info, cl), "tree", "Tree", "Edges") {
-		okEdges = true
+	isEdgesCall := func(x ast.Expr) bool {
+		if cl, ok := unparen(x).(*ast.CallExpr); ok && isRepoFunc(calleeOf(info, cl), "tree", "Tree", "Edges") {
+			return true
+		}
+		if o := identObj(info, x); o != nil {
+			found := false
+			ast.Inspect(rr.Decl.Body, func(n ast.Node) bool {
+				if as, ok := n.(*ast.AssignStmt); ok && len(as.Lhs) == 1 && len(as.Rhs) == 1 && identObj(info, as.Lhs[0]) == o {
+					if cl, ok := unparen(as.Rhs[0]).(*ast.CallExpr); ok && isRepoFunc(calleeOf(info, cl), "tree", "Tree", "Edges") {
+						found = true
+					}
+				}
+				return true
+			})
+			return found
+		}
+		return false
 	}
-	c.Check(okEdges, "GF", "tree.NNIRearranger.Rearrange/all-branches", rs.Pos(), "ranges over Tree.Edges()", "the generator does not range over all branches (Tree.Edges())").Clause = clause
+	okEdges := false
+	var loopPos token.Pos = rr.Decl.Pos()
+	ast.Inspect(rr.Decl.Body, func(n ast.Node) bool {
+		switch x := n.(type) {
+		case *ast.RangeStmt:
+			if x.Value != nil && identObj(info, x.Value) == eObj && isEdgesCall(x.X) {
+				okEdges = true
+				loopPos = x.Pos()
+			}
+		case *ast.AssignStmt:
+			if len(x.Lhs) == 1 && len(x.Rhs) == 1 && identObj(info, x.Lhs[0]) == eObj {
+				if ix, ok := unparen(x.Rhs[0]).(*ast.IndexExpr); ok && isEdgesCall(ix.X) {
+					okEdges = true
+					loopPos = x.Pos()
+				}
+			}
+		}
+		return true
+	})
+	o := &canonOpts{subst: map[types.Object]string{eObj: "$E"}}
+	c.Check(okEdges, "GF", "tree.NNIRearranger.Rearrange/all-branches", loopPos, "iterates over Tree.Edges()", "the generator does not iterate over all branches (Tree.Edges())").Clause = clause
 	vals := map[string]int{}
 	good := true
 	for _, call := range calls {
